@@ -6,7 +6,7 @@ set -eu
 FL=$1; OUT=$2
 REPO=${REPO:-/repo}
 SIM=$(cd "$(dirname "$0")" && pwd)
-HC=${LESIM_CACHE:-/verif/build/harness}
+HC=${LESIM_CACHE:-$(dirname "$SIM")/build/harness}
 mkdir -p "$OUT" "$HC"
 WRAPS="malloc calloc realloc free strdup strndup asprintf vasprintf getline getdelim lstat stat fopen fclose scandir realpath"
 WRAPFLAGS=""; for w in $WRAPS; do WRAPFLAGS="$WRAPFLAGS -Wl,--wrap=$w"; done
@@ -23,7 +23,8 @@ HO="$HC/lesim-$FL-$HH.o"; SO="$HC/sched-$FL-$HH.o"
 (
   flock 9
   if [ ! -f "$HO" ] || [ ! -f "$SO" ]; then
-    rm -f "$HC"/lesim-$FL-*.o "$HC"/sched-$FL-*.o
+    # older versions of the harness objects: removed only when nothing can still be linking against them
+    find "$HC" -maxdepth 1 \( -name "lesim-$FL-*.o" -o -name "sched-$FL-*.o" \) -mmin +180 -delete 2>/dev/null || true
     $CXX -std=c++17 $HF -g -fno-omit-frame-pointer -I$REPO/include -c "$SIM/lesim.cc" -o "$HO.tmp" -Wno-deprecated-declarations &
     $CXX -std=c++17 -O2 -g -c "$SIM/sched.cc" -o "$SO.tmp" &
     wait
